@@ -46,6 +46,8 @@ def configs(tier, seed):
     out = []
     for s in sizes:
         for m in METHODS:
+            if tier == "quick" and len(s) >= 3 and m != "nearest":
+                continue  # three datasets: quick tier with the default method only (backward / forward in the thorough tier)
             base = {"name": f"axis-{'x'.join(map(str, s))}-{m}", "kind": "axis", "sizes": list(s), "method": m}
             if len(s) >= 3 or sum(s) >= 6:
                 for c in range(_cases(s)):
